@@ -188,6 +188,13 @@ func c25Check(p c25Params) func(x *vrt.Exec) (string, string, string) {
 			}
 			prev = s
 		}
+		// every loss of an established connection has a cause: at most one per injected fault
+		losses := 0
+		for i := 1; i < len(seq); i++ {
+			if seq[i-1] == opcua.Connected.String() && seq[i] == opcua.Disconnected.String() {
+				losses++
+			}
+		}
 		out := fmt.Sprintf("injected=%d states=%s", len(o.injected), strings.Join(seq, ">"))
 		detail := fmt.Sprintf("faults injected: %v (of %d client network operations)\nstate sequence: %v\nconnect errors: %v\nread1 err=%q, state after recovery time=%v, read2 err=%q\nafter Close: state=%v dials at close=%d, 30 intervals later=%d, live client threads=%v",
 			o.injected, o.clientOps, seq, o.connectErrs, o.read1, o.stateAfterRec, o.read2, o.stateAfterCls, o.dialsAtClose, o.dialsLater, o.live)
@@ -196,6 +203,8 @@ func c25Check(p c25Params) func(x *vrt.Exec) (string, string, string) {
 			return out, tag + "/scenario-did-not-finish", detail
 		case bad != "":
 			return out, tag + "/undocumented-transition/" + bad, detail
+		case losses > len(o.injected):
+			return out, tag + "/connection-reported-lost-without-a-fault", fmt.Sprintf("%d Connected->Disconnected transitions, %d faults\n", losses, len(o.injected)) + detail
 		case len(o.connectErrs) >= 4:
 			return out, tag + "/connect-never-succeeds-although-server-reachable", detail
 		case p.AutoReconnect && o.stateAfterRec != opcua.Connected:
